@@ -125,3 +125,15 @@ func Un_string(v string) uint64 {
 	}
 	return x
 }
+
+// []byte flow values (8 bytes, big endian; nil is the zero value).
+func Mk_bytes(x uint64) []byte {
+	return []byte{byte(x >> 56), byte(x >> 48), byte(x >> 40), byte(x >> 32), byte(x >> 24), byte(x >> 16), byte(x >> 8), byte(x)}
+}
+func Un_bytes(v []byte) uint64 {
+	var x uint64
+	for _, b := range v {
+		x = x<<8 | uint64(b)
+	}
+	return x
+}
